@@ -388,6 +388,13 @@ def make_o2(depth):
         exp = ev(term)
         en.must_hold(interp == comp == called, "interpreted-equals-compiled", case, detail="test()=%s compiled=%s call=%s" % (interp, comp, called))
         en.must_hold(core.sbool(exp) == core.sbool(interp), "interpreted-equals-compiled", case, detail="test() differs from the boolean value of the term")
+        # predicates are values: deriving a wider / narrower one from a stored predicate leaves the stored one as it was
+        wider = obj | B.pred(lambda v: True)
+        narrower = obj & B.pred(lambda v: False)
+        again, again_c = bool(obj.test("Value")), bool(obj.to_pyfunc()("Value"))
+        en.must_hold(again == interp and again_c == interp, "interpreted-equals-compiled", case,
+                     detail="after deriving `p | x` and `p & y` from it, p itself evaluates to %s / %s (was %s)" % (again, again_c, interp))
+        en.must_hold(bool(wider.test("Value")) is True and bool(narrower.test("Value")) is False, "interpreted-equals-compiled", case, detail="derived predicates have the wrong value")
     return o2
 
 
@@ -444,6 +451,13 @@ def _native(case):
         exp = ev(case["term"])
         if not (interp == comp == called == exp):
             return ["test()=%s compiled=%s call=%s expected=%s" % (interp, comp, called, exp)]
+        wider = obj | B.pred(lambda v: True)
+        narrower = obj & B.pred(lambda v: False)
+        again, again_c = bool(obj.test("Value")), bool(obj.to_pyfunc()("Value"))
+        if again != interp or again_c != interp:
+            return ["after deriving `p | x` and `p & y` from it, p itself evaluates to %s / %s (was %s)" % (again, again_c, interp)]
+        if bool(wider.test("Value")) is not True or bool(narrower.test("Value")) is not False:
+            return ["derived predicates have the wrong value"]
         return []
     K = case["K"]
     top, nodes, tops = build_tree(case["shape"], case["names"], case["attrs"], case["combiner"])
